@@ -238,6 +238,69 @@ def _valid_cuts(self, cuts):
     return None
 
 
+AUDIT = {"rate": 0.0}
+import random as _random
+
+_AUDIT_RNG = _random.Random(12345)
+_TOL_CACHE = {}
+
+
+def _desc_of(obj):
+    """Model descriptor of a built-in scorer *instance* (None for anything else)."""
+    name = type(obj).__name__
+    builtin = ("L2Cost", "GaussianVarCost", "GaussianCovCost")
+    if type(obj).__module__.startswith("vf."):
+        return None
+    if name in builtin:
+        return ("cost", name, obj.param)
+    if name == "CUSUM":
+        return ("cusum",)
+    if name == "L2Saving":
+        return ("l2saving",)
+    inner = getattr(obj, "cost", None) if name in ("ChangeScore", "LocalAnomalyScore") else (
+        getattr(obj, "baseline_cost", None) if name == "Saving" else None)
+    if inner is not None and type(inner).__name__ in builtin and not type(inner).__module__.startswith("vf."):
+        kind = {"ChangeScore": "change", "LocalAnomalyScore": "local", "Saving": "saving"}[name]
+        return (kind, type(inner).__name__, inner.param)
+    return None
+
+
+def _k5_audit(self, cuts, result):
+    """K5 (C01, C06): one sampled row of an evaluate() batch requested by whatever workload is
+    running must lie in the interval-valued direct recomputation from X[s:e] (DESIGN s2)."""
+    try:
+        from vf.models import costs as M
+        from vf.models import scores as SM
+
+        desc = _desc_of(self)
+        if desc is None:
+            return
+        X = np.asarray(self._X, dtype=float)
+        if X.ndim == 1:
+            X = X.reshape(-1, 1)
+        key = (id(self._X), X.shape)
+        tol = _TOL_CACHE.get(key)
+        if tol is None or tol.Xl.shape != X.shape or not np.array_equal(tol.Xl[:1], X[:1].astype(tol.Xl.dtype)):
+            tol = M.DataTol(X)
+            _TOL_CACHE.clear()
+            _TOL_CACHE[key] = tol
+        a = np.asarray(cuts)
+        a = a.reshape(1, -1) if a.ndim == 1 else a
+        i = _AUDIT_RNG.randrange(a.shape[0])
+        iv = SM.score_interval(desc, X, tol, tuple(int(c) for c in a[i]))
+        COUNTS["K5"] += 1
+        if iv is None:
+            COUNTS["K5_singular_skipped"] += 1
+            return
+        row = np.asarray(result)[i]
+        if not (np.all(np.isfinite(row)) and np.all(row >= iv[0]) and np.all(row <= iv[1])):
+            _hit("K5", "C01", self, f"{type(self).__name__}{desc[1:2]} evaluate row {a[i].tolist()} = "
+                 f"{row.tolist()} outside the direct recomputation "
+                 f"[{np.asarray(iv[0]).tolist()}, {np.asarray(iv[1]).tolist()}] (n={X.shape[0]}, p={X.shape[1]})")
+    except Exception as ex:  # the audit must never disturb the monitored program
+        COUNTS["K5_errors"] += 1
+
+
 def k4_evaluate_sound(self, cuts, result):
     """K4 (C13, C01): a normal return implies the cuts were valid, and the result
     has one row per cut and p (univariate) or 1 (multivariate) columns."""
@@ -254,6 +317,8 @@ def k4_evaluate_sound(self, cuts, result):
         _hit("K4", "C13", self, f"evaluate returned normally for invalid cuts ({why}): "
              f"{np.asarray(cuts).tolist()!r:.300}")
         return True
+    if AUDIT["rate"] and _AUDIT_RNG.random() < AUDIT["rate"]:
+        _k5_audit(self, cuts, result)
     try:
         a = np.asarray(cuts)
         rows = 1 if a.ndim == 1 else a.shape[0]
